@@ -339,3 +339,78 @@ func VerifC13_Twin() {
 	zzverif.Assert(err != nil, "twin-must-fail")
 	zzverif.Reach("twin")
 }
+
+// One builder used more than once (pagination helpers re-sort and re-run the
+// same builder): every Build validates what the builder holds at that moment.
+// A valid ORDER BY / WHERE first, Build, then caller-supplied strings, Build
+// again: the second statement is as constrained as one from a fresh builder.
+func VerifC13_BuilderReuse() {
+	qb := NewORM(nil, "t").NewQueryBuilder().Select("*")
+	which := zzverif.Choice("clause changed after the first Build", 2)
+	if which == 0 {
+		qb = qb.OrderBy("name", "ASC")
+	} else {
+		qb = qb.Where("name", "=", 1)
+	}
+	_, _, err := qb.Build()
+	zzverif.Assert(err == nil, "builder-reuse: the valid first statement was rejected")
+	col := zzverif.StringFrom("col", 3, "aA1_ ;\"'-")
+	var q string
+	if which == 0 {
+		dir := []string{"ASC", "desc", "ASC; DROP TABLE t", "x"}[zzverif.Choice("dir", 4)]
+		q, _, err = qb.OrderBy(col, dir).Build()
+	} else {
+		q, _, err = qb.Where(col, "=", 2).Build()
+	}
+	if err == nil {
+		// every double-quoted stretch of the statement is a safe identifier and nothing
+		// of the caller's text stands outside quotes
+		inQuote, start := false, 0
+		for i := 0; i < len(q); i++ {
+			if q[i] == '"' {
+				if inQuote {
+					zzverif.Assert(zzIdentOK(q[start:i]), "builder-reuse: unsafe identifier in the second statement")
+				} else {
+					start = i + 1
+				}
+				inQuote = !inQuote
+			} else if !inQuote {
+				c := q[i]
+				zzverif.Assert(c != ';' && c != '\'' && c != '-', "builder-reuse: caller text outside an identifier in the second statement")
+			}
+		}
+		zzverif.Assert(!inQuote, "builder-reuse: unbalanced quote in the second statement")
+		if which == 0 {
+			zzverif.Assert(len(q) > 4 && (q[len(q)-4:] == " ASC" || q[len(q)-5:] == " DESC"), "builder-reuse: direction outside the allow-list in the second statement")
+		}
+	}
+	zzverif.Reach("builder-reuse")
+}
+
+// identifiers longer than any database's name limit (63 bytes in PostgreSQL):
+// the whole string is validated, not a prefix of it
+func VerifC13_LongIdentifier() {
+	n := []int{60, 62, 63, 64, 70}[zzverif.Choice("clean prefix length", 5)]
+	prefix := ""
+	for len(prefix) < n {
+		prefix += "abcdefghij"
+	}
+	prefix = prefix[:n]
+	tail := zzverif.StringFrom("tail", 2, "a1_\"; -")
+	id := prefix + tail
+	safe := zzIdentOK(id)
+	for k, f := range []func(string) (string, error){SanitizeIdentifier, SanitizeMySQLIdentifier, SanitizeSQLiteIdentifier} {
+		out, err := f(id)
+		name := []string{"postgres", "mysql", "sqlite"}[k]
+		if err == nil {
+			zzverif.Assert(safe, "long identifier with an unsafe tail accepted by the "+name+" sanitizer")
+			zzverif.Assert(len(out) >= len(id), "long identifier truncated by the "+name+" sanitizer")
+		}
+	}
+	q, _, err := NewORM(nil, id).NewQueryBuilder().Select("*").Build()
+	if err == nil {
+		zzverif.Assert(safe, "long table name with an unsafe tail accepted by the query builder")
+		_ = q
+	}
+	zzverif.Reach("long-ident")
+}
